@@ -407,14 +407,6 @@ void add_message (object_t * who, char *data) {
       ip->message_length++;
     }
 
-#ifdef NEOLITH_VERIF
-  if (verif_add_message_hook)
-    verif_add_message_hook (who, data, 0, 1);
-#endif
-  /* snoop handling. */
-  if (ip->snoop_by)
-    receive_snoop (data, ip->snoop_by->ob);
-
 #ifdef FLUSH_OUTPUT_IMMEDIATELY
   flush_message (ip);
 #else
@@ -430,6 +422,15 @@ void add_message (object_t * who, char *data) {
 #endif
 
   add_message_calls++;
+
+#ifdef NEOLITH_VERIF
+  if (verif_add_message_hook)
+    verif_add_message_hook (who, data, 0, 1);
+#endif
+  /* snoop handling. This calls LPC code (receive_snoop() in the snooper), which may destruct or disconnect
+   * this user (ip is freed then) or raise an error: it must be the last thing done here. */
+  if (ip->snoop_by)
+    receive_snoop (data, ip->snoop_by->ob);
 }				/* add_message() */
 
 
